@@ -680,6 +680,9 @@ size_t Model::m_do_process_pool(int mi, size_t max_events) {
 }
 int Model::m_completion(int mi, int state, int region) {
     MInst& I = inst_[mi];
+    // C10 / C12: a completion occurrence whose source is no longer the active state of its region (an exception
+    // aborted the step that armed it and it stayed in the pool) completes nothing (fix F-T)
+    if (I.active[region] != S(state).lib_id) return R_FALSE;
     if (M(mi).has_blocking && I.running && (has_internal_flag(mi, 0, true) || has_internal_flag(mi, 1, true))) return R_TRUE;
     I.busy = true;
     int result = R_FALSE;
